@@ -119,7 +119,7 @@ pub fn compare_pair(
         rep.count("both-return-non-constant-not-compared");
     } else if ca != cb {
         let why = attribute(raw_pre, args, &ca);
-        let repaired = matches!(&a, Out::Fail(v, t) if v == "TypeMismatch" && t.contains("List(Data)")) && why.starts_with("clean_up_no_inlines+afterwards");
+        let repaired = matches!(&a, Out::Fail(v, t) if v == "TypeMismatch" && t.contains("Data)")) && why.starts_with("clean_up_no_inlines+afterwards");
         if repaired {
             // the generator hands `list data` to a builtin that takes a typed list (writeBits, multiScalarMul);
             // only the optimiser's `afterwards` phase makes the program well-typed
